@@ -1,0 +1,11 @@
+//go:build verif
+
+package debugger
+
+import "github.com/gdamore/tcell/v2"
+
+// VerifSetScreen makes the console draw on the given screen (a tcell simulation screen in the
+// verification harness) instead of opening the terminal. Must be called before Run.
+func (c *Console) VerifSetScreen(s tcell.Screen) {
+	c.app.SetScreen(s)
+}
